@@ -899,6 +899,95 @@ def suite_totality(exe, tier, seed):
             "samples": samples, "violations": viol}
 
 
+def underlined_snippets(out):
+    """[(code, line number, underlined text)]: for every finding with a primary label, the text of the printed source
+    line that the carets of the label cover"""
+    import re
+    res = []
+    lines = out.split("\n")
+    code = None
+    for k, l in enumerate(lines):
+        m = re.match(r"^(warning|error|note|info)\[(\w+)\]:", l)
+        if m:
+            code = m.group(2)
+            continue
+        m = re.match(r"^\s*(\d+) │ (.*)$", l)
+        if m and code and k + 1 < len(lines):
+            c = re.match(r"^\s*│ ( *)(\^+)", lines[k + 1])
+            if c:
+                start, n = len(c.group(1)), len(c.group(2))
+                res.append((code, int(m.group(1)), m.group(2)[start:start + n]))
+                code = None
+    return res
+
+
+def suite_positions(exe, tier, seed):
+    """C04 (BOUNDED): the label of a finding covers exactly the statement it is about, whatever precedes it in the file"""
+    viol, samples = [], []
+    evals = nontrivial = 0
+    STMT = "out <-- in * in;"
+    def prog(before_line="", same_line_prefix="  ", eol="\n", head=""):
+        return head + eol.join(["pragma circom 2.0.0;", "template Main() {", "  signal input in; signal output out;"] + ([before_line] if before_line else []) + [same_line_prefix + STMT, "}", "component main = Main();", ""])
+    cases = [
+        ("plain", prog()),
+        ("comment-with-multibyte-on-earlier-line", prog(before_line="  /* \u00e9\u00e9\u00e9 \u4e2d\u6587 */")),
+        ("line-comment-with-multibyte-on-earlier-line", prog(before_line="  // \u00e9\u00e9\u00e9 \U0001F600")),
+        ("comment-with-multibyte-on-same-line", prog(same_line_prefix="  /* \u00e9\u00e9 */ ")),
+        ("tabs", prog(same_line_prefix="\t\t")),
+        ("crlf", prog(eol="\r\n")),
+        ("long-comment-line-before", prog(before_line="  // " + "x" * 600)),
+        ("string-with-multibyte-before", prog(before_line='  log("\u00e9\u00e9\u00e9");')),
+        ("multi-line-comment-before", prog(before_line="  /* a\n   \u00e9\n   b */")),
+        ("many-blank-lines-before", prog(before_line="\n\n\n\n\n")),
+        ("bom", prog(head="\ufeff")),
+        ("bom-and-multibyte-comment", prog(head="\ufeff", before_line="  /* \u00e9 */")),
+    ]
+    d = tempfile.mkdtemp(prefix="vx-e2e-")
+    try:
+        for (name, src) in cases:
+            path = os.path.join(d, "p.circom")
+            open(path, "w", newline="").write(src)
+            sar = os.path.join(d, "p.sarif")
+            if os.path.exists(sar):
+                os.unlink(sar)
+            rc, out, err = run_cli(exe, ["-v", "--sarif-file", sar, path], d)
+            evals += 1
+            nontrivial += 1
+            what = None
+            und = [u for u in underlined_snippets(out) if u[0] in ("CS0013", "CS0005")]
+            if rc is None or "panicked" in err or rc not in (0, 1):
+                what = f"the tool aborted or hung (exit {rc})"
+            elif not und:
+                # the file may be rejected as a whole (e.g. a byte order mark is not a token): then an error must say so
+                if not any(c.startswith("P") for (c, _, _) in coded_findings(out)):
+                    what = "no finding for the `<--` statement and no parse error either"
+            else:
+                code, ln, text = und[0]
+                want_line = src.replace("\r\n", "\n").split("\n").index(next(l for l in src.replace("\r\n", "\n").split("\n") if STMT in l)) + 1
+                if text.strip() != STMT.rstrip(";") and text.strip() != STMT:
+                    what = f"the label of {code} underlines `{text}` instead of `{STMT}`"
+                elif ln != want_line:
+                    what = f"the label of {code} is on line {ln}, the statement is on line {want_line}"
+                elif os.path.exists(sar):
+                    try:
+                        sj = json.load(open(sar))
+                        regs = [r["locations"][0]["physicalLocation"]["region"] for r in sj["runs"][0]["results"] if r.get("ruleId") == code and r.get("locations")]
+                        if regs and regs[0].get("startLine") != want_line:
+                            what = f"SARIF puts {code} on line {regs[0].get('startLine')}, the statement is on line {want_line}"
+                    except Exception:
+                        pass
+            if len(samples) < 6 and evals % 2 == 1:
+                samples.append({"case": name, "exit": rc, "underlined": und[0][2] if und else None})
+            if what and len(viol) < 20:
+                viol.append({"unit": "e2e", "fn": "parse_file / report locations", "obligation": f"e2e|positions|{name}", "props": ["C04"],
+                             "input": {"case": name, "source": src[:600]}, "what": f"{name}: {what}", "replay": "python3 run/e2e.py positions quick 0"})
+    finally:
+        shutil.rmtree(d, ignore_errors=True)
+    return {"unit": "e2e-positions", "evaluations": evals, "distinct_nontrivial": nontrivial, "exhaustive": False,
+            "rule": "the real CLI on a template whose `out <-- in * in;` statement is preceded by text that shifts byte offsets (multi-byte characters in comments and strings, tabs, CRLF, long lines, a byte order mark): the label of the finding about that statement underlines exactly the statement, on its line, in the terminal output and in SARIF; a file the tool cannot tokenise must be rejected with a parse error rather than analysed with shifted positions",
+            "bound": "12 placements of one statement", "samples": samples, "violations": viol}
+
+
 def main():
     suite, tier, seed = sys.argv[1], (sys.argv[2] if len(sys.argv) > 2 else "quick"), int(sys.argv[3]) if len(sys.argv) > 3 else 0
     try:
@@ -906,7 +995,7 @@ def main():
     except Exception as e:
         print(json.dumps({"error": str(e)}))
         return
-    r = {"tuples": suite_tuples, "output": suite_output, "values": suite_values, "curves": suite_curves, "includes": suite_includes, "totality": suite_totality}[suite](exe, tier, seed)
+    r = {"tuples": suite_tuples, "output": suite_output, "values": suite_values, "curves": suite_curves, "includes": suite_includes, "totality": suite_totality, "positions": suite_positions}[suite](exe, tier, seed)
     print(json.dumps(r))
 
 if __name__ == "__main__":
